@@ -24,7 +24,7 @@ macro "frame_so" : tactic =>
 
 theorem modPc_keys {R : St → St → Prop}
     (hkeys : ∀ (f : Ctx → Ctx), (∀ pc, (f pc).opened = pc.opened) → ∀ s, R s { s with pc := f s.pc })
-    (f : Ctx → Ctx) (hf : ∀ pc, (f pc).opened = pc.opened) : Fr R (modPc f) := modPc_fr f (hkeys f hf)
+    (f : Ctx → Ctx) (hf : ∀ pc, (f pc).opened = pc.opened) : IFr R (modPc f) := modPc_fr f (hkeys f hf)
 
 set_option linter.unusedSectionVars false
 
@@ -33,81 +33,81 @@ variable {R : St → St → Prop} (hR : FrPrims R) (hrd : IgnoresReader R)
   (hkeys : ∀ (f : Ctx → Ctx), (∀ pc, (f pc).opened = pc.opened) → ∀ s, R s { s with pc := f s.pc })
 include hR hrd hkeys
 
-theorem preserveLeadingTab_fr (seg : Segment) (ind : Int) : Fr R (preserveLeadingTab seg ind) := by
+theorem preserveLeadingTab_fr (seg : Segment) (ind : Int) : IFr R (preserveLeadingTab seg ind) := by
   unfold preserveLeadingTab; frame
 
-theorem paragraphOpen_fr (p : Nat) : Fr R (paragraphOpen p) := by unfold paragraphOpen; frame
-theorem paragraphContinue_fr (n : Nat) : Fr R (paragraphContinue n) := by unfold paragraphContinue; frame
-theorem thematicOpen_fr (p : Nat) : Fr R (thematicOpen p) := by unfold thematicOpen; frame
-theorem atxOpen_fr (p : Nat) : Fr R (atxOpen p) := by unfold atxOpen; frame
+theorem paragraphOpen_fr (p : Nat) : IFr R (paragraphOpen p) := by unfold paragraphOpen; frame
+theorem paragraphContinue_fr (n : Nat) : IFr R (paragraphContinue n) := by unfold paragraphContinue; frame
+theorem thematicOpen_fr (p : Nat) : IFr R (thematicOpen p) := by unfold thematicOpen; frame
+theorem atxOpen_fr (p : Nat) : IFr R (atxOpen p) := by unfold atxOpen; frame
 
-theorem setextOpen_fr (p : Nat) : Fr R (setextOpen p) := by
+theorem setextOpen_fr (p : Nat) : IFr R (setextOpen p) := by
   have := lastOpenedBlock_fr hR
   unfold setextOpen; frame
   all_goals (apply modPc_keys hkeys; intro _; rfl)
 
-theorem codeTakeLine_fr (n : Nat) (pos padding : Int) : Fr R (codeTakeLine n pos padding) := by
+theorem codeTakeLine_fr (n : Nat) (pos padding : Int) : IFr R (codeTakeLine n pos padding) := by
   have := preserveLeadingTab_fr hR hrd hkeys
   unfold codeTakeLine; frame
 
-theorem codeOpen_fr (p : Nat) : Fr R (codeOpen p) := by
+theorem codeOpen_fr (p : Nat) : IFr R (codeOpen p) := by
   have := codeTakeLine_fr hR hrd hkeys
   unfold codeOpen; frame
 
-theorem codeContinue_fr (n : Nat) : Fr R (codeContinue n) := by
+theorem codeContinue_fr (n : Nat) : IFr R (codeContinue n) := by
   have := codeTakeLine_fr hR hrd hkeys
   unfold codeContinue; frame
 
-theorem fencedOpen_fr (p : Nat) : Fr R (fencedOpen p) := by
+theorem fencedOpen_fr (p : Nat) : IFr R (fencedOpen p) := by
   unfold fencedOpen; frame
   all_goals (apply modPc_keys hkeys; intro _; rfl)
 
-theorem fencedContinue_fr (n : Nat) : Fr R (fencedContinue n) := by
+theorem fencedContinue_fr (n : Nat) : IFr R (fencedContinue n) := by
   have := preserveLeadingTab_fr hR hrd hkeys
   unfold fencedContinue; frame
 
-theorem blockquoteProcess_fr : Fr R blockquoteProcess := by unfold blockquoteProcess; frame
+theorem blockquoteProcess_fr : IFr R blockquoteProcess := by unfold blockquoteProcess; frame
 
-theorem blockquoteOpen_fr (p : Nat) : Fr R (blockquoteOpen p) := by
+theorem blockquoteOpen_fr (p : Nat) : IFr R (blockquoteOpen p) := by
   have := blockquoteProcess_fr hR hrd hkeys
   unfold blockquoteOpen; frame
 
-theorem blockquoteContinue_fr (n : Nat) : Fr R (blockquoteContinue n) := by
+theorem blockquoteContinue_fr (n : Nat) : IFr R (blockquoteContinue n) := by
   have := blockquoteProcess_fr hR hrd hkeys
   unfold blockquoteContinue; frame
 
-theorem lastOffset_fr (n : Nat) : Fr R (lastOffset n) := by unfold lastOffset; frame
-theorem lastChildCount_fr (n : Nat) : Fr R (lastChildCount n) := by unfold lastChildCount; frame
+theorem lastOffset_fr (n : Nat) : IFr R (lastOffset n) := by unfold lastOffset; frame
+theorem lastChildCount_fr (n : Nat) : IFr R (lastChildCount n) := by unfold lastChildCount; frame
 
-theorem listOpen_fr (p : Nat) : Fr R (listOpen p) := by
+theorem listOpen_fr (p : Nat) : IFr R (listOpen p) := by
   have := lastOpenedBlock_fr hR
   unfold listOpen; frame
   all_goals (apply modPc_keys hkeys; intro _; rfl)
 
-theorem listContinue_fr (n : Nat) : Fr R (listContinue n) := by
+theorem listContinue_fr (n : Nat) : IFr R (listContinue n) := by
   have := lastOpenedBlock_fr hR
   have := lastOffset_fr hR hrd hkeys
   have := lastChildCount_fr hR hrd hkeys
   unfold listContinue; frame
   all_goals (apply modPc_keys hkeys; intro _; rfl)
 
-theorem listItemOpen_fr (p : Nat) : Fr R (listItemOpen p) := by
+theorem listItemOpen_fr (p : Nat) : IFr R (listItemOpen p) := by
   have := lastOffset_fr hR hrd hkeys
   unfold listItemOpen; frame
   all_goals (apply modPc_keys hkeys; intro _; rfl)
 
-theorem listItemContinue_fr (n : Nat) : Fr R (listItemContinue n) := by
+theorem listItemContinue_fr (n : Nat) : IFr R (listItemContinue n) := by
   have := lastOffset_fr hR hrd hkeys
   unfold listItemContinue; frame
   all_goals (apply modPc_keys hkeys; intro _; rfl)
 
-theorem htmlOpen_fr (p : Nat) : Fr R (htmlOpen p) := by
+theorem htmlOpen_fr (p : Nat) : IFr R (htmlOpen p) := by
   have := lastOpenedBlock_fr hR
   unfold htmlOpen; frame
 
-theorem htmlContinue_fr (n : Nat) : Fr R (htmlContinue n) := by unfold htmlContinue; frame
+theorem htmlContinue_fr (n : Nat) : IFr R (htmlContinue n) := by unfold htmlContinue; frame
 
-theorem bpOpen_fr (bp : BP) (p : Nat) : Fr R (bpOpen bp p) := by
+theorem bpOpen_fr (bp : BP) (p : Nat) : IFr R (bpOpen bp p) := by
   cases bp <;> unfold bpOpen
   · exact setextOpen_fr hR hrd hkeys p
   · exact thematicOpen_fr hR hrd hkeys p
@@ -120,14 +120,14 @@ theorem bpOpen_fr (bp : BP) (p : Nat) : Fr R (bpOpen bp p) := by
   · exact htmlOpen_fr hR hrd hkeys p
   · exact paragraphOpen_fr hR hrd hkeys p
 
-theorem bpContinue_fr (bp : BP) (n : Nat) : Fr R (bpContinue bp n) := by
+theorem bpContinue_fr (bp : BP) (n : Nat) : IFr R (bpContinue bp n) := by
   cases bp <;> unfold bpContinue
-  · exact Fr.pure hR _
-  · exact Fr.pure hR _
+  · exact IFr.pure hR _
+  · exact IFr.pure hR _
   · exact listContinue_fr hR hrd hkeys n
   · exact listItemContinue_fr hR hrd hkeys n
   · exact codeContinue_fr hR hrd hkeys n
-  · exact Fr.pure hR _
+  · exact IFr.pure hR _
   · exact fencedContinue_fr hR hrd hkeys n
   · exact blockquoteContinue_fr hR hrd hkeys n
   · exact htmlContinue_fr hR hrd hkeys n
@@ -140,10 +140,10 @@ end so
 theorem sameOpened_keys : ∀ (f : Ctx → Ctx), (∀ pc, (f pc).opened = pc.opened) → ∀ s, SameOpened s { s with pc := f s.pc } :=
   fun _ hf s => hf s.pc
 
-theorem bpOpen_sameOpened (bp : BP) (p : Nat) : Fr SameOpened (bpOpen bp p) :=
+theorem bpOpen_sameOpened (bp : BP) (p : Nat) : IFr SameOpened (bpOpen bp p) :=
   bpOpen_fr sameOpened_prims sameOpened_rd sameOpened_keys bp p
 
-theorem bpContinue_sameOpened (bp : BP) (n : Nat) : Fr SameOpened (bpContinue bp n) :=
+theorem bpContinue_sameOpened (bp : BP) (n : Nat) : IFr SameOpened (bpContinue bp n) :=
   bpContinue_fr sameOpened_prims sameOpened_rd sameOpened_keys bp n
 
 /-- parser.go:960-1014: the candidate loop either reports `newBlocksOpened` or hands back the result it was given,
@@ -170,7 +170,7 @@ theorem tryParsers_opened (parent : Nat) (blank cont : Bool) (w : Int) :
         obtain ⟨_, e1⟩ := lastOpenedBlock_ok h1
         rw [e1] at k1
         obtain ⟨y, s2, h2, k2⟩ := bind_ok k1
-        have ho2 : SameOpened s s2 := Fr.apply h2 (bpOpen_sameOpened bp parent)
+        have ho2 : SameOpened s s2 := IFr.apply h2 (bpOpen_sameOpened bp parent)
         obtain ⟨node, state⟩ := y
         cases node with
         | none =>
@@ -199,7 +199,7 @@ theorem toContinuable_opened (cont : Bool) (r : OpenResult) (lb : Option Block) 
     | some b =>
       dsimp only at h
       obtain ⟨st, s1, h1, k1⟩ := bind_ok h
-      have ho : SameOpened s s1 := Fr.apply h1 (bpContinue_sameOpened b.bp b.node)
+      have ho : SameOpened s s1 := IFr.apply h1 (bpContinue_sameOpened b.bp b.node)
       have hr : r = .noBlocksOpened := by
         have : (r == OpenResult.noBlocksOpened) = true := by
           cases hrr : (r == OpenResult.noBlocksOpened) with
@@ -213,8 +213,8 @@ theorem toContinuable_opened (cont : Bool) (r : OpenResult) (lb : Option Block) 
         exact ⟨ho, .inl rfl⟩
   · obtain ⟨rfl, rfl⟩ := pure_ok h
     exact ⟨rfl, .inl rfl⟩
-theorem peekLine_sameOpened : Fr SameOpened peekLine := peekLine_fr sameOpened_rd
-theorem lineOffset_sameOpened : Fr SameOpened lineOffset := lineOffset_fr sameOpened_rd
+theorem peekLine_sameOpened : IFr SameOpened peekLine := peekLine_fr sameOpened_rd
+theorem lineOffset_sameOpened : IFr SameOpened lineOffset := lineOffset_fr sameOpened_rd
 
 /-- parser.openBlocks from the label `retry:` on: `newBlocksOpened` once reported stays, and unless it is reported
     the open-block stack is what it was -/
@@ -230,11 +230,11 @@ theorem openBlocksLoop_opened (blank cont : Bool) :
     intro parent result lb s r' s' h
     unfold openBlocksLoop at h
     obtain ⟨y, s1, h1, k1⟩ := bind_ok h
-    have o1 : SameOpened s s1 := Fr.apply h1 peekLine_sameOpened
+    have o1 : SameOpened s s1 := IFr.apply h1 peekLine_sameOpened
     obtain ⟨line, seg⟩ := y
     dsimp only at k1
     obtain ⟨lo, s2, h2, k2⟩ := bind_ok k1
-    have o2 : SameOpened s1 s2 := Fr.apply h2 lineOffset_sameOpened
+    have o2 : SameOpened s1 s2 := IFr.apply h2 lineOffset_sameOpened
     obtain ⟨u, s3, h3, k3⟩ := bind_ok k2
     have e3 := modPc_ok h3
     have o3 : s3.pc.opened = s.pc.opened := by
@@ -366,7 +366,7 @@ theorem lineLoop_eof_opened (parent : Nat) (ob : List Block) :
     intro i stats s st' s' hob h
     unfold lineLoop at h
     obtain ⟨y, s1, h1, k1⟩ := bind_ok h
-    have o1 : SameOpened s s1 := Fr.apply h1 peekLine_sameOpened
+    have o1 : SameOpened s s1 := IFr.apply h1 peekLine_sameOpened
     obtain ⟨line, seg⟩ := y
     cases line with
     | none =>
@@ -397,7 +397,7 @@ theorem lineLoop_eof_opened (parent : Nat) (ob : List Block) :
       · rw [hk] at k3
         simp only [if_true] at k3
         obtain ⟨st, s4, h4, k4⟩ := bind_ok k3
-        have o4 : SameOpened s1 s4 := Fr.apply h4 (bpContinue_sameOpened be.bp be.node)
+        have o4 : SameOpened s1 s4 := IFr.apply h4 (bpContinue_sameOpened be.bp be.node)
         by_cases hc : st.cont = true
         · rw [hc] at k4
           simp only [if_true] at k4
@@ -445,7 +445,7 @@ theorem linesLoop_opened (parent : Nat) :
         obtain ⟨u, s3, h3, k3⟩ := bind_ok k2
         exact ih _ _ _ _ k3
 
-theorem skipBlankLinesR_sameOpened : Fr SameOpened skipBlankLinesR :=
+theorem skipBlankLinesR_sameOpened : IFr SameOpened skipBlankLinesR :=
   reader_fr sameOpened_rd (fun r => skipBlankLines readerOps (loopFuel r.source) 0 r) id
 
 /-- parser.go:1055-1127: the outer loop of parseBlocks, entered with no block open, ends with no block open -/
@@ -459,7 +459,7 @@ theorem blocksLoop_opened (parent : Nat) :
     intro stats s s' hop h
     unfold blocksLoop at h
     obtain ⟨x, s1, h1, k1⟩ := bind_ok h
-    have o1 : SameOpened s s1 := Fr.apply h1 skipBlankLinesR_sameOpened
+    have o1 : SameOpened s s1 := IFr.apply h1 skipBlankLinesR_sameOpened
     obtain ⟨seg, lines, ok⟩ := x
     dsimp only at k1
     split at k1
